@@ -358,12 +358,35 @@ pub fn run_case(case: &C05Case) -> CaseReport {
     rep
 }
 
+/// Sequential histories with real signals, plus the concurrent registry programs of C01/C02
+/// judged by the same model (return values and delivered action lists).
+#[derive(Clone, Debug, Serialize, Deserialize)]
+pub enum C05Any {
+    Seq(C05Case),
+    Conc(crate::reg::RegCase),
+}
+
+fn run_any(c: &C05Any) -> CaseReport {
+    match c {
+        C05Any::Seq(c) => run_case(c),
+        C05Any::Conc(c) => crate::reg::run_case(c),
+    }
+}
+
 fn worker(def: &PropDef, args: &WorkerArgs) -> WorkerReport {
     let maxlen = if args.tier == Tier::Thorough { 200 } else { 40 };
-    generic_worker(def, args, strategy(maxlen), &run_case)
+    let strat = prop_oneof![
+        3 => strategy(maxlen).prop_map(C05Any::Seq),
+        2 => crate::reg::strategy(crate::reg::Focus::C01).prop_map(C05Any::Conc),
+    ]
+    .boxed();
+    generic_worker(def, args, strat, &run_any)
 }
 
 fn replay(v: &Value) -> CaseReport {
+    if let Ok(c) = serde_json::from_value::<C05Any>(v.clone()) {
+        return run_any(&c);
+    }
     let case: C05Case = serde_json::from_value(v.clone()).expect("case");
     run_case(&case)
 }
